@@ -1132,35 +1132,53 @@ func ruleAddDegree(c *Ctx) {
 	for k, v := range acc {
 		accName[v] = k
 	}
-	// preference lists
+	// preference lists: every constant list of accidentals built in AddDegree (or in a helper it calls), with the value of
+	// precedeSharp under which it is built (a variadic call per branch, or a helper that returns the order)
 	n := 0
-	for _, ci := range callsIn(fn) {
-		callee := staticCallee(ci.Common())
-		if callee == nil || callee.Parent() != fn {
-			continue
-		}
-		args := ci.Common().Args
-		list, ok := variadicConsts(args[len(args)-1])
-		if !ok {
-			continue
-		}
-		n++
-		c.site(1)
-		var names []string
-		for _, v := range list {
-			names = append(names, accName[v])
-		}
-		side, found := false, false
-		for _, pc := range pathConds(ci.Block()) {
-			if pc.cond == ssa.Value(fn.Params[2]) {
-				side, found = pc.side, true
+	tr := c.plainTracer()
+	accT := ""
+	if p := c.pkg("note"); p != nil {
+		accT = "note.Accidental"
+	}
+	lists := c.regionFuncChains(fn, nil)
+	var lfns []*ssa.Function
+	for f := range lists {
+		lfns = append(lfns, f)
+	}
+	sort.Slice(lfns, func(i, j int) bool { return fname(lfns[i]) < fname(lfns[j]) })
+	for _, f := range lfns {
+		chain := lists[f]
+		allInstrs(f, func(in ssa.Instruction) {
+			sl, ok := in.(*ssa.Slice)
+			if !ok {
+				return
 			}
-		}
-		want := "Natural,Flat,Sharp"
-		if side {
-			want = "Natural,Sharp,Flat"
-		}
-		c.check(found && strings.Join(names, ",") == want, fmt.Sprintf("%s|prefer|sharp=%v", name, side), c.pos(ci.Pos()), name, fmt.Sprintf("precedeSharp=%v tries %v", side, names), fmt.Sprintf("with precedeSharp=%v the spellings are tried in the order %v, want %s (natural when possible, otherwise the requested accidental)", side, names, want))
+			st, isSlice := sl.Type().Underlying().(*types.Slice)
+			if !isSlice || typeName(st.Elem()) != accT {
+				return
+			}
+			list, ok := variadicConsts(sl)
+			if !ok || len(list) == 0 {
+				return
+			}
+			n++
+			c.site(1)
+			var names []string
+			for _, v := range list {
+				names = append(names, accName[v])
+			}
+			side, found := false, false
+			for _, g := range guardsAlong(linstr{sl, chain}, 0) {
+				if gl := tr.trace(g.cond); len(gl.chain) == 0 && gl.v == ssa.Value(fn.Params[2]) {
+					side, found = g.want, true
+				}
+			}
+			want := "Natural,Flat,Sharp"
+			if side {
+				want = "Natural,Sharp,Flat"
+			}
+			c.check(found && strings.Join(names, ",") == want, fmt.Sprintf("%s|prefer|sharp=%v", name, side), c.pos(sl.Pos()), name, fmt.Sprintf("precedeSharp=%v tries %v", side, names), fmt.Sprintf("with precedeSharp=%v the spellings are tried in the order %v, want %s (natural when possible, otherwise the requested accidental)", side, names, want))
+		})
 	}
 	if n != 2 {
 		c.bad(name+"|prefer", c.pos(fn.Pos()), name, fmt.Sprintf("%d preference lists found, want one per value of precedeSharp", n))
@@ -1195,6 +1213,12 @@ func ruleAddDegree(c *Ctx) {
 			continue
 		}
 		c.site(1)
+		// decided by folding on every reachable pitch (-24..200): floor division by 12 (for negative multiples of 12, which
+		// AddDegree never produces, the historical answer "one octave lower, remainder 12" is accepted too)
+		if problem, ok := c.octaveSplitByFolding(f, m.op == token.QUO); ok {
+			c.check(problem == "", fname(f), c.pos(f.Pos()), fname(f), "floor division by 12 on -24..200 (folded)", fname(f)+": "+problem)
+			continue
+		}
 		okConst := true
 		cnt := 0
 		negAdj := false
@@ -1265,6 +1289,38 @@ func (c *Ctx) ringAtByFolding(fn *ssa.Function) (string, bool) {
 			if got != want {
 				return fmt.Sprintf("on a ring of %d, index %d yields element %d, want element %d", n, i, got-100, want-100), true
 			}
+		}
+	}
+	return "", true
+}
+
+
+// octaveSplitByFolding folds Semitone.Octave (quo=true) or Semitone.WithoutOctave on -24..200.
+func (c *Ctx) octaveSplitByFolding(f *ssa.Function, quo bool) (string, bool) {
+	for sv := int64(-24); sv <= 200; sv++ {
+		r, err := c.newFolder().foldCall(f, []fval{{k: constant.MakeInt64(sv), t: f.Params[0].Type()}})
+		if err != nil || r.k == nil || r.k.Kind() != constant.Int {
+			return "", false
+		}
+		got, _ := constant.Int64Val(r.k)
+		fl := sv / 12
+		if sv < 0 && sv%12 != 0 {
+			fl--
+		}
+		rem := sv - 12*fl
+		want, alt := fl, fl
+		if !quo {
+			want, alt = rem, rem
+		}
+		if sv < 0 && sv%12 == 0 {
+			if quo {
+				alt = fl - 1
+			} else {
+				alt = 12
+			}
+		}
+		if got != want && got != alt {
+			return fmt.Sprintf("for %d semitones the result is %d, want %d", sv, got, want), true
 		}
 	}
 	return "", true
